@@ -40,6 +40,13 @@ pub struct C11Stats {
 }
 
 pub fn check(stream: &[Ev], sequential: bool, extra_after_finish: &[Ev]) -> (Vec<Violation>, C11Stats) {
+    // every third stream: the writer is cloned in the middle of the run and the clone carries on
+    // (a `Normalize` is `Clone`; its clone must hold whatever the original had buffered)
+    let clone_at = (stream.len() % 3 == 0).then_some(stream.len() / 2);
+    check_cloning(stream, sequential, extra_after_finish, clone_at)
+}
+
+pub fn check_cloning(stream: &[Ev], sequential: bool, extra_after_finish: &[Ev], clone_at: Option<usize>) -> (Vec<Violation>, C11Stats) {
     let mut viol = vec![];
     let rec = Rec::default();
     let mut n = writer::Normalize::<W, _>::new(rec.clone());
@@ -49,7 +56,16 @@ pub fn check(stream: &[Ev], sequential: bool, extra_after_finish: &[Ev]) -> (Vec
     // multiset of received-but-not-forwarded, maintained incrementally
     let mut pending: HashMap<Key, i64> = HashMap::new();
     for (i, e) in stream.iter().enumerate() {
-        block_on(n.handle_event(e.clone(), &cli::Empty));
+        if clone_at == Some(i) {
+            let cloned = n.clone();
+            n = cloned;
+        }
+        let handled = std::panic::catch_unwind(std::panic::AssertUnwindSafe(|| block_on(n.handle_event(e.clone(), &cli::Empty))));
+        if let Err(p) = handled {
+            let m = p.downcast_ref::<String>().cloned().or_else(|| p.downcast_ref::<&str>().map(|s| (*s).to_string())).unwrap_or_default();
+            viol.push(v("panic", format!("call #{i} ({:?}) panicked{}: {m}", inp[i].what, if clone_at.is_some_and(|c| c <= i) { " (writer cloned before this call)" } else { "" })));
+            return (viol, C11Stats { max_buffered });
+        }
         let out = rec.keys();
         let new = &out[seen..];
         *pending.entry(inp[i].clone()).or_default() += 1;
@@ -62,7 +78,7 @@ pub fn check(stream: &[Ev], sequential: bool, extra_after_finish: &[Ev]) -> (Vec
             }
         }
         // (3) forwarded at once
-        if matches!(inp[i].what, What::RunStarted | What::ParsingFinished | What::ParserError(_)) && !new.contains(&inp[i]) {
+        if matches!(inp[i].what, What::RunStarted | What::ParsingFinished(_) | What::ParserError(_)) && !new.contains(&inp[i]) {
             viol.push(v("not-forwarded-at-once", format!("call #{i}: {:?} was not forwarded in the call that received it", inp[i].what)));
         }
         // (6) sequential input passes through event by event
@@ -158,7 +174,7 @@ pub fn check(stream: &[Ev], sequential: bool, extra_after_finish: &[Ev]) -> (Vec
     let (mut closed_f, mut closed_r, mut closed_a) = (vec![], vec![], vec![]);
     for k in &out {
         let bad = match &k.what {
-            What::RunStarted | What::ParsingFinished | What::ParserError(_) | What::RunFinished => false,
+            What::RunStarted | What::ParsingFinished(_) | What::ParserError(_) | What::RunFinished => false,
             What::FeatureStarted => {
                 let b = o.f.is_some() || closed_f.contains(&k.f);
                 o.f = Some(k.f);
